@@ -49,6 +49,17 @@ CHECKS['C12'] = ('groview',
   'Trusts: TLC; synth.py independent .gro writer; positions decoded from atom numbers (< 100000 atoms).', 'DESIGN 3 C12')
 ENGINES['groview'] = ('harness/drivers/groview.py', 'GroView.tla + MC_GroView.tla + Trace_GroView.tla')
 
+CHECKS['C17'] = ('frames',
+  'Frames.tla: the 24 lattice rotations as (axis, angle) cases with exact integer matrices (Rodrigues with rational cos/sin) and the frames of lattice point triples; TLC proves the group laws (orthogonal, det +1, axis fixed, trace, R(-t)=R(t)^T, composition, axis-length independence) and the frame laws (orthogonal, right handed, first vector p0->p2, normal to the plane, every collinear completion) and emits the exact expected values, replayed on rotation_matrix / calcule_base over scales; random inputs as relation-boolean traces validated with Trace_Frames.tla',
+  'Exact on the lattice: 48+48+11 rotation cases x 5 axis scales (1e-6..1e6) must reproduce the TLC matrix (either handedness convention, but consistently), 2 100 point triples x 4 scales (1e-3..1e3 nm) incl. every exactly collinear direction of the cube and a coincident middle point must give the TLC frame (generic) or an orthonormal right-handed completion (collinear). Random axes/angles/triples are measured (1e-12 tolerances) and the measured relations are checked by TLC against what the property demands.',
+  'Trusts: TLC integer arithmetic; numpy for the measured relations (norms, determinants) in the harness.', 'DESIGN 3 C17')
+CHECKS['C19'] = ('pbc',
+  'PBC.tla: round-based wrap (s = d B^-1, s -= round(s), d = s B) in exact integer/rational arithmetic vs the true minimum over all images; TLC proves MinImage/NotLonger (orthorhombic), Symmetric and ShiftInvariant for all lattice shifts in [-3,3]^3 (orthorhombic and triclinic) and emits exact squared distances replayed on Residue.distance_to (residue/point/reverse/inverse-flag variants); random float boxes as traces validated with Trace_PBC.tla',
+  'Every (box, p, q) of the lattice bounds (separations up to several boxes, ties at half a box excluded as in the property) is evaluated by the real distance_to in four variants and compared with sqrt of the TLC integer (1e-9); random orthorhombic/triclinic boxes with multi-atom residues check minimum image against an independent per-axis search, <= plain distance, symmetry, six random lattice shifts on either argument, and the inverse flag; TLC decides from the recorded booleans which are demanded for which box kind.',
+  'Trusts: TLC; the per-axis brute-force minimum in the harness for random orthorhombic boxes.', 'DESIGN 3 C19')
+ENGINES['frames'] = ('harness/drivers/frames.py', 'Frames.tla + MC_Frames.tla + Trace_Frames.tla')
+ENGINES['pbc'] = ('harness/drivers/pbc.py', 'PBC.tla + MC_PBC.tla + Trace_PBC.tla')
+
 PENDING_REASON = 'check not built yet in this round (build in progress; see DESIGN.md Appendix B)'
 
 
